@@ -197,7 +197,7 @@ func (e *Engine) mParseFloat(sv value) (value, bool) {
 	if !ok {
 		return float64(0), false
 	}
-	if ne >= 3 || len(s) > 300 {
+	if ne >= 3 || len(s) > 200 {
 		f, err := strconv.ParseFloat(string(e.concBytes(s)), 64)
 		return f, err == nil
 	}
